@@ -216,8 +216,8 @@ func runC01(r *Run) {
 		r.ErrorsGate(fn, "direct.BuildLogLeaf:errors", "trillian/util.BuildLogLeaf", 1)
 	}
 	if fn := r.Fn("trillian/ctfe.extractRawCerts"); fn != nil {
-		r.ExpectStores(fn, "extractRawCerts:data", "&(new:ct.ASN1Cert#0.Data)", "p0[(1 + it@*)].Raw", 1)
-		r.ExpectStores(fn, "extractRawCerts:elem", "&(make:[]ct.ASN1Cert(len(p0))[(1 + it@*)])", "*new:ct.ASN1Cert#0", 1)
+		r.ExpectStores(fn, "extractRawCerts:data", "&(new:ct.ASN1Cert#0.Data)", "p0[it@*].Raw", 1)
+		r.ExpectStores(fn, "extractRawCerts:elem", "&(make:[]ct.ASN1Cert(len(p0))[it@*])", "*new:ct.ASN1Cert#0", 1)
 		for _, ret := range Returns(fn) {
 			r.Check("extractRawCerts:result", r.D.D(ret.Results[0]) == "make:[]ct.ASN1Cert(len(p0))", r.Where(ret), "returns a slice of len(chain) elements: "+r.D.D(ret.Results[0]))
 		}
